@@ -33,3 +33,21 @@ prop(
     ),
     assumptions=['attrs.asdict recurses into attrs instances, tuples and dicts and applies value_serializer to every leaf', 'json.dumps of str/int/finite float/bool/None/list/dict is strictly valid JSON'],
 )
+
+prop(
+    'C15',
+    ['S1', 'S2', 'S3', 'S6', 'S7', 'S8'],
+    explanation=(
+        'Sibling agreement of the per-class protocol with the slot table derived from attrs field annotations (20 concrete '
+        'AST classes, 23 child slots). S2: children() evaluated per enum member / None-ness combination allowed by the '
+        "class's validators returns exactly the non-None slots, each once. S3: for each of external_references, "
+        'contains_reference, contains_self_reference, contains_definition and each concrete class, the method resolved '
+        'through the MRO consults every slot (directly or by iterating children()), combines with or/any resp. union, '
+        'removes only the bound variable (HplQuantifier) / own alias (HplSimpleEvent), never returns a shared module-level '
+        'container, and the leaf/binder base cases hold (HplVarReference: {name}, alias == name, name = token[1:]; '
+        'HplThisMessage: self-reference; literals: nothing; quantifier defines its variable). S6: no abstract stub is '
+        'reachable on a concrete class. S7: iterate() is the explicit-stack (pop from end, extend(reversed(children)), '
+        'yield once) or recursive pre-order idiom. S8: aliases()/simple_events() enumerate event1 then event2; '
+        'HplProperty.events() yields all four positions. Not decided: check_some_self_references (own-field check).'
+    ),
+)
